@@ -36,6 +36,7 @@ fn show(x: &X) -> String {
         X::Inf(i) => format!("?{}", i),
         X::Ph(i) => format!("!1_{}", i),
         X::Lt(0) => "'static".into(),
+        X::Lt(9) => "'?7".into(),
         X::Lt(n) => format!("'!1_{}", n),
         X::Ct(n) => format!("{}", n),
         X::App(n, a) if a.is_empty() => n.to_string(),
@@ -53,12 +54,12 @@ struct Cx {
 impl Cx {
     fn new() -> Cx {
         let program = drive::load_program(
-            "struct A {} struct Bs {} struct S<T> {} #[variance(Covariant)] struct C<T> {} struct P<T, U> {} trait Tr<T> {} trait Tr2<T> {} \
+            "struct A {} struct Bs {} struct S<T> {} #[variance(Covariant)] struct C<T> {} struct P<T, U> {} struct Lr<'a> {} trait Tr<T> {} trait Tr2<T> {} \
              fn f1<T>(); fn f2<T>(); extern type E1; extern type E2; closure k1(self,) {} closure k2(self,) {}",
         )
         .unwrap();
         let mut ids = BTreeMap::new();
-        for n in ["A", "Bs", "S", "C", "P"] {
+        for n in ["A", "Bs", "S", "C", "P", "Lr"] {
             ids.insert(n, *program.adt_ids.iter().find(|(k, _)| k.to_string() == n).unwrap().1);
         }
         let t = |n: &str| *program.trait_ids.iter().find(|(k, _)| k.to_string() == n).unwrap().1;
@@ -68,6 +69,7 @@ impl Cx {
     fn lt(&self, x: &X) -> Lifetime<ChalkIr> {
         match x {
             X::Lt(0) => LifetimeData::Static.intern(ChalkIr),
+            X::Lt(9) => LifetimeData::InferenceVar(InferenceVar::from(7)).intern(ChalkIr),
             X::Lt(n) => LifetimeData::Placeholder(PlaceholderIndex { ui: UniverseIndex { counter: 1 }, idx: 10 + *n as usize }).intern(ChalkIr),
             o => panic!("not a lifetime {:?}", o),
         }
@@ -91,6 +93,7 @@ impl Cx {
             X::Ph(k) => TyKind::Placeholder(PlaceholderIndex { ui: UniverseIndex { counter: 1 }, idx: *k }).intern(i),
             X::App(n, a) => match *n {
                 "A" | "Bs" | "S" | "C" | "P" => TyKind::Adt(self.ids[n], sub(a)).intern(i),
+                "Lr" => TyKind::Adt(self.ids[n], Substitution::from_iter(i, [self.lt(&a[0]).cast::<GenericArg<ChalkIr>>(i)])).intern(i),
                 "u8" => TyKind::Scalar(Scalar::Uint(UintTy::U8)).intern(i),
                 "i8" => TyKind::Scalar(Scalar::Int(IntTy::I8)).intern(i),
                 "str" => TyKind::Str.intern(i),
@@ -231,7 +234,12 @@ fn type_set(thorough: bool) -> Vec<X> {
     }
     let few = [X::App("A", vec![]), X::App("u8", vec![]), X::B(0), X::B(1), X::Ph(0)];
     for l in &few {
-        for lt in [X::Lt(0), X::Lt(1)] {
+        // 'static, two distinct placeholder lifetimes, an inference lifetime (lifetimes never make
+        // unification fail: it emits outlives constraints instead)
+        for lt in [X::Lt(0), X::Lt(1), X::Lt(2), X::Lt(9)] {
+            if *l == few[0] {
+                v.push(X::App("Lr", vec![lt.clone()]));
+            }
             v.push(X::App("ref", vec![lt.clone(), l.clone()]));
             v.push(X::App("refmut", vec![lt, l.clone()]));
         }
@@ -412,6 +420,40 @@ pub fn run_c18(rep: &Report) -> i32 {
         }
         rep.merge_counts(&local);
     });
+    // (3b) the same end-to-end comparison on the text-level families (associated types: goal
+    // arguments containing projections, impls told apart by where-clauses; auto traits; built-ins;
+    // lifetimes; custom clauses)
+    {
+        let texts = super::textcorpus::all(thorough);
+        texts.par_iter().for_each(|case| {
+            let Ok(program) = drive::load_program(&case.program) else { return };
+            let mut local: BTreeMap<String, u64> = BTreeMap::new();
+            for g in &case.goals {
+                let Ok(peeled) = drive::peel(&program, g) else { continue };
+                for cfg in [SolverCfg::SLG, SolverCfg::REC] {
+                    let (a, _) = drive::solve_fresh(&program, &peeled, cfg);
+                    let bypass = BypassDb { inner: program.clone() };
+                    let mut solver = AnySolver::new(cfg);
+                    let (b, _) = solver.solve(&bypass, &peeled.ugoal);
+                    let b = decode_caught(&program, &peeled, b);
+                    *local.entry("end_to_end_pairs".into()).or_insert(0) += 1;
+                    *local.entry(format!("end_to_end_pairs_{}", case.family)).or_insert(0) += 1;
+                    if let (Caught::Ok(a), Caught::Ok(b)) = (&a, &b) {
+                        if a != b {
+                            rep.violation(Violation {
+                                property: "C18".into(),
+                                kind: "answer-changes-when-filter-bypassed".into(),
+                                site: format!("{}/{}", cfg.short(), case.family),
+                                what: format!("{} `{}`: with the impl pre-filter {:?}, without it {:?}", cfg.name(), g, a, b),
+                                input: json!({"program": case.program, "goal": g, "solver": cfg.name()}),
+                            });
+                        }
+                    }
+                }
+            }
+            rep.merge_counts(&local);
+        });
+    }
     rep.sample(json!({"pair": [show(&tys[12]), show(&tys[40])], "could_match": chalk_tys[12].could_match(i, &*cx.program, &chalk_tys[40])}));
     rep.sample(json!({"pair": ["tuple<A>", "tuple<A, A>"], "expected": "false (different arity), not unifiable"}));
     c01::vacuity(rep, &["could_match_false", "impl_headers_filtered_out", "applicable_impl_headers", "end_to_end_pairs"]);
